@@ -19,12 +19,12 @@ RULE = ('(a) Library round trip through the harness: samples are built in memory
         '(in-memory route, k=17; sequence files, and read files with qualities around the default threshold and multiplicities around the default count) against `ska build` with default options + the same command on the file.  (c) Narrow files: for k in '
         '{33,35,37,41,51,63}, tables whose stored k-mers all fit in 64 bits (arms starting with enough A) next to ordinary '
         'rows-shifted copies; nk, align, map, distance, weed (with random filter flags), a delete on the file that weed saved, delete and merge in both argument orders (output under plain and dotted prefixes, and written over one of the inputs) must agree with the '
-        'model, and nk must report k_bits=128.  (e) Files whose table is empty after weeding/filtering (samples, no k-mers): read-out and merge as first, last and middle argument against the model.  (d) One build/save/load/read-out per width under Miri (quick: read-out at k=33; thorough: read-out at k=9,31,33,63 and align/weed/delete/map/distance at k=9 and 33), compared with the native run.  Non-trivial: the file has at least one k-mer and (c) really fits in 64 bits; '
+        'model, and nk must report k_bits=128.  (f) Merges of 9..24 single-sample files in one call, forwards and backwards, against the table of their samples.  (e) Files whose table is empty after weeding/filtering (samples, no k-mers): read-out and merge as first, last and middle argument against the model.  (d) One build/save/load/read-out per width under Miri (quick: read-out at k=33; thorough: read-out at k=9,31,33,63 and align/weed/delete/map/distance at k=9 and 33), compared with the native run.  Non-trivial: the file has at least one k-mer and (c) really fits in 64 bits; '
         'distinct = distinct (k, mode, input, operation).')
 ASSUMPTIONS = ['in-memory vs reloaded comparison is model-free; part (c) uses the reference model',
                'the harness reload mimics the command-line width dispatch (u64 first, then u128)']
 REQUIRED = {t: ['rt:nk', 'rt:align', 'rt:dist', 'rt:map', 'rt:vcf', 'rt:weed', 'rt:delete', 'cli:align', 'cli:map',
-                'narrow:nk', 'narrow:align', 'narrow:map', 'narrow:distance', 'cli-reads:align', 'cli-reads:map', 'narrow:weed', 'narrow:weed-then-delete', 'narrow:delete', 'narrow-merge-output:dotted', 'narrow-merge-output:onto-first-input', 'narrow-merge-output:onto-second-input',
+                'narrow:nk', 'narrow:align', 'narrow:map', 'narrow:distance', 'cli-reads:align', 'cli-reads:map', 'merges_of_9+_files', 'narrow:weed', 'narrow:weed-then-delete', 'narrow:delete', 'narrow-merge-output:dotted', 'narrow-merge-output:onto-first-input', 'narrow-merge-output:onto-second-input',
                 'narrow:merge-first', 'narrow:merge-second', 'narrow_files_fit_64_bits', 'multi_frame_files', 'rt_rows_compared', 'miri_round_trips', 'empty:nk', 'empty:merge-first', 'empty:merge-second', 'empty:merge-middle']
             for t in ('quick', 'thorough')}
 NARROW_K = [33, 35, 37, 41, 51, 63]
@@ -46,6 +46,8 @@ def plan(tier, seed, rng, scale):
         descs.append({'kind': 'cli', 'seed': rng.getrandbits(32)})
         if len(descs) % 3 == 0:
             descs.append({'kind': 'cli-reads', 'seed': rng.getrandbits(32)})
+        if len(descs) % 10 == 0:
+            descs.append({'kind': 'manymerge', 'nfiles': rng.choice([9, 10, 11, 13, 17, 24]), 'seed': rng.getrandbits(32)})
     for k in NARROW_K:
         for rcmode in (True, False):
             descs.append({'kind': 'narrow', 'k': k, 'rc': rcmode, 'seed': rng.getrandbits(32)})
@@ -189,6 +191,40 @@ def run_cli(desc, ctx, res):
                         % (fmt, m1.returncode, m2.returncode), {'samples': samples})
         else:
             res.count('cli:map')
+
+
+def run_manymerge(desc, ctx, res):
+    """Nine and more files in one merge call, forwards and backwards: no input may vanish whatever their number and order."""
+    rng = random.Random(desc['seed'])
+    k = rng.choice([17, 31, 35])
+    n = desc['nfiles']
+    base = G.rseq(rng, 4 * k)
+    samples = []
+    for i in range(n):
+        t = list(base)
+        for _ in range(rng.randint(0, 2)):
+            t[rng.randrange(len(t))] = rng.choice('ACGT')
+        samples.append([''.join(t)] + ([G.rseq(rng, k + 3)] if rng.random() < 0.5 else []))
+    for i, recs in enumerate(samples):
+        G.write_fa(ctx.path('g%d.fa' % i), recs)
+        if G.ska_build(ctx, ctx.path('g%d' % i), [ctx.path('g%d.fa' % i)], k, True).returncode != 0:
+            raise Inconclusive('build failed')
+    for label, order in (('forward', list(range(n))), ('backward', list(range(n - 1, -1, -1)))):
+        p = ctx.sh(ctx.ska, 'merge', *[ctx.path('g%d.skf' % i) for i in order], '-o', ctx.path('mm_' + label))
+        res.evals += 1
+        ok = p.returncode == 0
+        if ok:
+            try:
+                hm, Tm = G.nk(ctx, ctx.path('mm_%s.skf' % label))
+                ok = hm.get('names') == ['g%d' % i for i in order] and Tm == M.table_of([samples[i] for i in order], k, True)
+            except (G.NkFailed, ValueError):
+                ok = False
+        if not ok:
+            res.violate('C09:manymerge:' + label, 'k=%d: merge of %d files (%s) fails, loses samples or differs from the table of their samples: %s'
+                        % (k, n, label, p.stderr.strip()[-120:]), {'samples': samples})
+        else:
+            res.count('merges_of_9+_files')
+    res.nontrivial.append(fingerprint(['manymerge', desc['seed']]))
 
 
 def run_cli_reads(desc, ctx, res):
@@ -569,6 +605,8 @@ def run_case(desc, ctx):
         run_cli(desc, ctx, res)
     elif desc['kind'] == 'cli-reads':
         run_cli_reads(desc, ctx, res)
+    elif desc['kind'] == 'manymerge':
+        run_manymerge(desc, ctx, res)
     else:
         run_narrow(desc, ctx, res)
     return res
